@@ -56,6 +56,9 @@ pub enum Op {
     VecGrowPlugin(u16, u8),
     VecConsume(u16),
     VecDropHost(u16),
+    /// clone vector i in the host / in the plugin (the copy joins the pool and is grown later)
+    VecCloneHost(u16),
+    VecClonePlugin(u16),
     ArcMake(u64),
     ArcClone(u16),
     ArcRead(u16),
@@ -246,6 +249,26 @@ fn body(pl: &Plugin, case: &Case, fl: &mut Flags) -> Result<(), Fail> {
                     fl.cross = true;
                 }
             }
+            Op::VecCloneHost(i) => {
+                if !vecs.is_empty() {
+                    let i = pick(*i, vecs.len());
+                    let c = vecs[i].0.clone();
+                    ensure!(&c[..] == &vecs[i].1[..], "C05:result", "{when}: clone made in the host differs");
+                    let m = vecs[i].1.clone();
+                    vecs.push((c, m));
+                    fl.cross = true;
+                }
+            }
+            Op::VecClonePlugin(i) => {
+                if let (false, Some(p)) = (vecs.is_empty(), &pm) {
+                    let i = pick(*i, vecs.len());
+                    let c = p.vec_clone(&vecs[i].0);
+                    ensure!(&c[..] == &vecs[i].1[..], "C05:result", "{when}: clone made in the plugin differs");
+                    let m = vecs[i].1.clone();
+                    vecs.push((c, m));
+                    fl.cross = true;
+                }
+            }
             Op::ArcMake(v) => {
                 if let (Some(p), Some(r)) = (&pm, &rm) {
                     let a = p.arc_make(*v);
@@ -369,6 +392,8 @@ fn op_strategy() -> impl Strategy<Value = Op> {
         3 => (any::<u16>(), any::<u8>()).prop_map(|(i, k)| Op::VecGrowPlugin(i, k)),
         1 => any::<u16>().prop_map(Op::VecConsume),
         2 => any::<u16>().prop_map(Op::VecDropHost),
+        2 => any::<u16>().prop_map(Op::VecCloneHost),
+        2 => any::<u16>().prop_map(Op::VecClonePlugin),
         2 => any::<u64>().prop_map(Op::ArcMake),
         2 => any::<u16>().prop_map(Op::ArcClone),
         2 => any::<u16>().prop_map(Op::ArcRead),
